@@ -1,7 +1,6 @@
 package main
 
-func genFailsafeCase(thorough bool, r *R, seed uint64, index int64) *Case { panic(infraError{"C09 not built yet"}) }
-func genReadersCase(thorough bool, r *R, seed uint64, index int64) *Case  { panic(infraError{"C16 not built yet"}) }
-func evalFailsafe(c *Case) *Verdict   { return &Verdict{Infra: "C09 not built yet"} }
-func evalReaders(c *Case) *Verdict    { return &Verdict{Infra: "C16 not built yet"} }
-func (g *bundleGen) plantPlus()       {}
+func genReadersCase(thorough bool, r *R, seed uint64, index int64) *Case {
+	panic(infraError{"C16 not built yet"})
+}
+func evalReaders(c *Case) *Verdict { return &Verdict{Infra: "C16 not built yet"} }
